@@ -68,7 +68,7 @@ func (c *canon) fn(f *ssa.Function) string {
 	for a := f; a != nil; a = a.Parent() {
 		if a == c.self {
 			// closure of self: name by path of indices
-			return "SELF" + strings.TrimPrefix(f.Name(), c.self.Name())
+			return "SELF" + strings.TrimPrefix(fname(f), c.self.Name())
 		}
 	}
 	return c.norm(relFunc(f))
@@ -393,7 +393,7 @@ func ruleSIB2(w *World) []Ob {
 		for _, fn := range j.ModFuncs {
 			allInstrs(fn, func(in ssa.Instruction) {
 				c, ok := in.(*ssa.Call)
-				if !ok || c.Common().StaticCallee() == nil || c.Common().StaticCallee().Name() != "Output" || j.PkgPath(c.Common().StaticCallee()) != modulePath {
+				if !ok || c.Common().StaticCallee() == nil || fname(c.Common().StaticCallee()) != "Output" || j.PkgPath(c.Common().StaticCallee()) != modulePath {
 					return
 				}
 				found = true
@@ -401,7 +401,7 @@ func ruleSIB2(w *World) []Ob {
 				var names []string
 				for _, e := range elems {
 					if oc, isC := stripConv(e).(*ssa.Call); isC && oc.Common().StaticCallee() != nil {
-						names = append(names, oc.Common().StaticCallee().Name())
+						names = append(names, fname(oc.Common().StaticCallee()))
 					} else {
 						names = append(names, describeValue(e))
 					}
@@ -507,7 +507,7 @@ func traversalObligations(p *Prog, pk *packages.Package, fd *ast.FuncDecl) []Ob 
 	for _, node := range nodeParams(pk, fd) {
 		childrenOf := func(e ast.Expr) bool {
 			sel, ok := e.(*ast.SelectorExpr)
-			if !ok || sel.Sel.Name != "children" {
+			if !ok || astFieldName(pk, sel) != "children" {
 				return false
 			}
 			id, ok := sel.X.(*ast.Ident)
@@ -715,7 +715,7 @@ func ruleSIB6(w *World) []Ob {
 		for _, g := range mi.workers[wk] {
 			f := outermost(g.Parent())
 			for i := 0; i < 4; i++ {
-				stage = f.Name()
+				stage = fname(f)
 				if p.Func("(*gtree."+simple+")."+stage) != nil {
 					break
 				}
@@ -750,7 +750,7 @@ func ruleSIB6(w *World) []Ob {
 					}
 					callee := c.Common().StaticCallee()
 					if recvTypeName(callee) == simple && callee != fn {
-						set[callee.Name()] = true
+						set[fname(callee)] = true
 					}
 				})
 			}
